@@ -84,20 +84,21 @@ def snapshot(t):
         sql = t.sql()
     except Exception:
         sql = None
-    return (fpm.fingerprint(t, "exact"), sql, id(t.parent), t.arg_key, t.index)
+    # link / hash problems the tree already has (an ill-linked tree returned by the parser is C08's finding, not a mutation)
+    return (fpm.fingerprint(t, "exact"), sql, id(t.parent), t.arg_key, t.index, frozenset(fpm.link_problems(t)), frozenset(fpm.hash_problems(t)))
 
 
 def after_problems(t, snap):
     probs = []
-    fp, sql, pid, ak, ix = snap
+    fp, sql, pid, ak, ix, lp0, hp0 = snap
     if fpm.fingerprint(t, "exact") != fp:
         probs.append(("mutated", "structural fingerprint (args / comments / types / meta) changed"))
     if (id(t.parent), t.arg_key, t.index) != (pid, ak, ix):
         probs.append(("reparented", "the argument's own parent / arg_key / index changed"))
-    lp = fpm.link_problems(t)
+    lp = [x for x in fpm.link_problems(t) if x not in lp0]
     if lp:
         probs.append(("links", lp[0]))
-    hp = fpm.hash_problems(t)
+    hp = [x for x in fpm.hash_problems(t) if x not in hp0]
     if hp:
         probs.append(("stale_hash", hp[0]))
     if not probs:
@@ -116,6 +117,9 @@ def worker(shard, nshards, plan, quick):
     target_dialects = all_dialects()
     C = calls(target_dialects)
     names = list(C)
+    corpus_calls = ["sql:duckdb", "sql:tsql", "sql:bigquery", "sql:snowflake", "sql:spark", "sql:mysql", "sql:postgres", "sql:oracle", "sql:clickhouse",
+                    "sql:presto", "sql:sqlite", "sql_pretty:base", "optimize", "qualify_copy", "annotate_copy", "transform_rename", "transform_identity",
+                    "diff_self_copy", "diff_other", "replace_tables", "replace_placeholders", "copy", "hash_eq", "alias_", "paren", "subquery", "where", "limit"]
     pair_first = [n for n in names if not n.startswith("sql:")] + ["sql:base", "sql:tsql", "sql:bigquery", "sql:snowflake"]
     # witness: was the generator's private copy mutated during generation?
     orig_generate = Generator.generate
@@ -185,6 +189,30 @@ def worker(shard, nshards, plan, quick):
                         res["transitions"] += 1
                         for code, msg in after_problems(t, snap_root) + after_problems(sub, snap_sub):
                             record(code, name + "@subtree", sql, dialect, msg)
+            elif kind == "corpus":
+                # a dialect-test statement in its own dialect: generation into its own, the base and the main target dialects and
+                # the tree-level calls; the tree is re-used while it stays untouched (re-parsed after any damage)
+                own = f"sql:{dialect or 'base'}"
+                cnames = [own, "sql:base"] + [n for n in corpus_calls if n not in (own, "sql:base")]
+                if not quick:
+                    cnames = names
+                t = base
+                snap = snapshot(t)
+                for name in cnames:
+                    if name.startswith("sql"):
+                        Generator.generate = generate
+                    try:
+                        do(name, t)
+                    finally:
+                        Generator.generate = orig_generate
+                    res["single"] += 1
+                    res["transitions"] += 1
+                    probs = after_problems(t, snap)
+                    for code, msg in probs:
+                        record(code, name, sql, dialect, msg)
+                    if probs:
+                        t = sqlglot.parse_one(sql, read=dialect or None)
+                        snap = snapshot(t)
             elif kind == "pairs":
                 for n1 in pair_first:
                     for n2 in pair_first:
@@ -238,6 +266,11 @@ def run(ctx: Ctx) -> None:
     k0 = [s for c, s, t in statements("", 0)] + ["SELECT a, b AS x FROM t JOIN u ON t.a = u.a WHERE c > 1 GROUP BY a ORDER BY b LIMIT 3",
                                                     "WITH q AS (SELECT a FROM t) SELECT * FROM q", "SELECT a FROM t UNION SELECT a FROM u",
                                                     "a + b * 2", "a AND (b OR c)"]
+    by_d = {}
+    for d, sql in corpus.dialect_test_sql():
+        by_d.setdefault(d, []).append(sql)
+    for d, sqls in sorted(by_d.items()):
+        plan.append(("corpus", d, sqls))
     plan.append(("pairs", "", k0 + ([] if quick else [s for c, s, t in statements("", 1)][::25])))
     plan.append(("independence", "", k0 + [s for c, s, t in statements("", 1)][::(40 if quick else 8)]))
     res = ctx.run_shards(worker, ctx.jobs * 4, plan, quick)
@@ -261,7 +294,8 @@ def run(ctx: Ctx) -> None:
             "distinct_nontrivial": res["private_copy_mutated"],
             "rule": "states = (argument tree, cache state left by earlier calls); transitions = public non-mutating calls: .sql() into all 34 "
                     "dialects (+pretty/identify), transform x3, 14 builders, optimize, qualify/annotate/normalize_identifiers on a copy, "
-                    "expand, replace_tables, replace_placeholders, diff in both roles, lineage; single calls on every tree, all ordered "
+                    "expand, replace_tables, replace_placeholders, diff in both roles, lineage; single calls on every tree (G_core k<=1, identity.sql; "
+                    "every statement of tests/dialects/*.py in its own dialect with 30 of the calls in quick, all in thorough), all ordered "
                     "pairs of calls on the simplest trees, calls on attached sub-trees; copy-independence under every C08 mutation at every "
                     "position. non-trivial = generations during which the generator's private copy WAS mutated (so the argument would "
                     "have been damaged without the copy).",
